@@ -1,36 +1,40 @@
-"""In-memory file system installed as ``gbasis.parsers.open`` (module-global lookup precedes builtins).
+"""File system seen by ``gbasis.parsers``.
 
-Fault kinds: error on open (ENOENT for missing files is ordinary behaviour, EACCES/EIO are injected)
-and EIO on read().  A real-directory variant writes the same texts below a temporary directory so
-that a minority of runs exercise the real ``open``.
+``SimFS`` keeps every file as a *real* file below a private temporary directory (so that code which
+reaches the file by any API - ``open``, ``os.stat``, ``pathlib`` - finds it) and installs its ``open``
+as ``gbasis.parsers.open`` (module-global lookup precedes builtins): that seam injects the faults -
+EACCES/EIO on open, EIO on ``read()``.  ``RealFS`` is the same without the seam (no injected faults);
+a minority of runs use it to show that the seam does not change behaviour.
+
+The library only ever sees real path strings; the simulator names files by virtual paths
+(``/sim/basis0.nw``) so that operation logs do not depend on the temporary directory's name.
 """
+import builtins
 import errno
 import os
 import shutil
 import tempfile
 
 
-class SimFile:
-    def __init__(self, fs, path, text):
+class FaultyFile:
+    """Proxy around a real text file whose first ``read`` may fail."""
+
+    def __init__(self, fs, fh, path):
         self._fs = fs
+        self._fh = fh
         self._path = path
-        self._text = text
-        self.closed = False
 
     def read(self, *args):
-        if self.closed:
-            raise ValueError("I/O operation on closed file.")
-        f = self._fs.pending_fault
-        if f == "read_eio":
+        if self._fs.pending_fault == "read_eio":
             self._fs.pending_fault = None
             self._fs.fired["fs_read_error"] = self._fs.fired.get("fs_read_error", 0) + 1
             raise OSError(errno.EIO, "Input/output error (simulated)", self._path)
-        return self._text
+        return self._fh.read(*args)
 
     def close(self):
-        if not self.closed:
-            self.closed = True
+        if not self._fh.closed:
             self._fs.open_handles -= 1
+        return self._fh.close()
 
     def __enter__(self):
         return self
@@ -40,75 +44,51 @@ class SimFile:
         return False
 
     def __iter__(self):
-        return iter(self._text.splitlines(True))
+        return iter(self._fh)
+
+    def __getattr__(self, name):
+        return getattr(self._fh, name)
 
 
 class SimFS:
-    """{path: text}; ``open`` is what the parsers see."""
+    seam = True
 
     def __init__(self):
-        self.files = {}
+        self.files = {}  # virtual path -> text (the model of what is stored)
         self.pending_fault = None  # None | "open_eacces" | "open_eio" | "read_eio"
         self.fired = {}
         self.open_handles = 0
         self.opens = 0
+        self._dir = tempfile.mkdtemp(prefix="histsim-fs-")
+
+    def real(self, path):
+        """Real path handed to the library for a virtual path."""
+        if not isinstance(path, str):
+            return path
+        return os.path.join(self._dir, path.strip("/").replace("/", "_"))
 
     def write(self, path, text):
         self.files[path] = text
+        with builtins.open(self.real(path), "w") as fh:
+            fh.write(text)
 
     def open(self, path, mode="r", *args, **kwargs):
         self.opens += 1
-        if "w" in mode or "a" in mode or "+" in mode:
-            raise OSError(errno.EROFS, "simulated file system is read-only for the library", path)
         f = self.pending_fault
         if f in ("open_eacces", "open_eio"):
             self.pending_fault = None
             self.fired["fs_open_error"] = self.fired.get("fs_open_error", 0) + 1
             code = errno.EACCES if f == "open_eacces" else errno.EIO
             raise OSError(code, os.strerror(code) + " (simulated)", path)
-        if not isinstance(path, str) or path not in self.files:
-            raise FileNotFoundError(errno.ENOENT, "No such file or directory", path)
+        fh = builtins.open(path, mode, *args, **kwargs)
         self.open_handles += 1
-        return SimFile(self, path, self.files[path])
-
-    def snapshot(self):
-        return tuple(sorted(self.files.items()))
-
-    def cleanup(self):
-        pass
-
-
-class RealFS:
-    """Same interface, real files in a temporary directory; no injected faults (the seam is absent)."""
-
-    def __init__(self):
-        self.files = {}
-        self.pending_fault = None
-        self.fired = {}
-        self.open_handles = 0
-        self.opens = 0
-        self._dir = tempfile.mkdtemp(prefix="histsim-fs-")
-
-    def _real(self, path):
-        return os.path.join(self._dir, path.strip("/").replace("/", "_"))
-
-    def write(self, path, text):
-        self.files[path] = text
-        with open(self._real(path), "w") as fh:
-            fh.write(text)
-
-    def open(self, path, mode="r", *args, **kwargs):
-        self.opens += 1
-        self.pending_fault = None
-        if not isinstance(path, str):
-            raise FileNotFoundError(errno.ENOENT, "No such file or directory", path)
-        return open(self._real(path), mode, *args, **kwargs)
+        return FaultyFile(self, fh, path)
 
     def snapshot(self):
         out = []
         for p in sorted(self.files):
             try:
-                with open(self._real(p)) as fh:
+                with builtins.open(self.real(p)) as fh:
                     out.append((p, fh.read()))
             except OSError as exc:
                 out.append((p, "<%s>" % type(exc).__name__))
@@ -116,3 +96,14 @@ class RealFS:
 
     def cleanup(self):
         shutil.rmtree(self._dir, ignore_errors=True)
+
+
+class RealFS(SimFS):
+    """No seam: the parsers use the builtin ``open``; faults cannot be injected."""
+
+    seam = False
+
+    def open(self, path, mode="r", *args, **kwargs):
+        self.opens += 1
+        self.pending_fault = None
+        return builtins.open(path, mode, *args, **kwargs)
